@@ -46,6 +46,7 @@ func checkC07(c *Ctx) {
 	depths := map[string]bool{}
 	parallelFor(n3, func(i int) { c07Run3(c, i, depths) })
 	parallelFor(n2, func(i int) { c07Run2(c, i, depths) })
+	c07HighRes(c)
 	c.mu.Lock()
 	ds := []string{}
 	for k := range depths {
@@ -669,4 +670,84 @@ func c07Run2(c *Ctx, i int, depths map[string]bool) {
 	if spurious > 0 {
 		c.Violate("", fmt.Sprintf("quadtree-spurious cells=%d %s: %d segments outside the lattice; %s", cells, family, spurious, desc), cs)
 	}
+}
+
+//-----------------------------------------------------------------------------
+// Oracle 3: lattices too large for an exhaustive reference (index arithmetic, cache keys, level counts only go wrong
+// for big indices). Necessary conditions for "loses nothing": the mesh is closed, every vertex is within a cell of the
+// surface and every resolvable surface point is within a cell diagonal of the mesh.
+
+func c07HighRes(c *Ctx) {
+	type hr struct {
+		axis, cells int
+	}
+	cases := []hr{{1, 520}, {2, 520}, {0, 520}, {2, 640}}
+	if !c.Quick {
+		cases = append(cases, hr{1, 640}, hr{0, 1030}, hr{1, 1030}, hr{2, 1030}, hr{1, 2100})
+	}
+	parallelFor(len(cases), func(i int) {
+		k := cases[i]
+		r := c.Rng("highres", i)
+		sz := v3.Vec{X: 0.3, Y: 0.3, Z: 0.3}
+		sz.Set(k.axis, 10)
+		rod, _ := sdf.Box3D(sz, 0.05)
+		ofs := v3.Vec{X: r.R(-1, 1), Y: r.R(-1, 1), Z: r.R(-1, 1)}
+		s := sdf.Transform3D(rod, sdf.Translate3d(ofs))
+		ts := render.ToTriangles(s, render.NewMarchingCubesOctree(k.cells))
+		c.Eval(1)
+		h := 10.0 / float64(k.cells)
+		diag := h * math.Sqrt(3)
+		desc := fmt.Sprintf("rounded rod 10x0.3x0.3 along axis %d at %v", k.axis, ofs)
+		cs := c07Case{Index: i, Dim: 3, Cells: k.cells, Family: "high-resolution", Shape: desc, TrisP: len(ts)}
+		if len(ts) == 0 {
+			c.Violate("", fmt.Sprintf("octree-highres cells=%d %s: no triangles", k.cells, desc), cs)
+			return
+		}
+		rep := checkClosed3(ts, 1e-6*h)
+		worst := 0.0
+		for _, t := range ts {
+			for q := 0; q < 3; q++ {
+				if f := math.Abs(s.Evaluate(t[q])); f > worst {
+					worst = f
+				}
+			}
+		}
+		grid := newTriGrid(ts, diag)
+		far, checked := 0.0, 0
+		for q := 0; q < 3000; q++ {
+			// points on the rod's surface: take a point on the axis segment, push out to the surface along a random normal
+			u := v3.Vec{X: r.N(), Y: r.N(), Z: r.N()}
+			u.Set(k.axis, 0)
+			if u.Length() == 0 {
+				continue
+			}
+			u = u.Normalize()
+			p := ofs
+			p.Set(k.axis, ofs.Get(k.axis)+r.R(-4.8, 4.8))
+			a, b := p, p.Add(u.MulScalar(0.5)) // f(a) < 0 < f(b)
+			for it := 0; it < 50; it++ {
+				m := a.Add(b).MulScalar(0.5)
+				if s.Evaluate(m) < 0 {
+					a = m
+				} else {
+					b = m
+				}
+			}
+			checked++
+			if d := grid.dist(a, 2); d > far {
+				far = d
+			}
+		}
+		c.Count("highres_surface_points_checked", int64(checked))
+		switch {
+		case rep.Unbalanced > 0:
+			c.Violate("", fmt.Sprintf("octree-highres cells=%d %s: mesh is open: %d unmatched directed edges (first %v) in %d triangles", k.cells, desc, rep.Unbalanced, rep.FirstBadEdge, len(ts)), cs)
+		case worst > h:
+			c.Violate("", fmt.Sprintf("octree-highres cells=%d %s: a vertex is %g from the surface (cell %g)", k.cells, desc, worst, h), cs)
+		case far > diag:
+			c.Violate("", fmt.Sprintf("octree-highres cells=%d %s: a surface point is %g (or more) from the mesh, cell diagonal %g: part of the surface is missing", k.cells, desc, far, diag), cs)
+		default:
+			c.Distinct(fmt.Sprintf("3d/highres/%d/%d", k.axis, k.cells))
+		}
+	})
 }
